@@ -191,7 +191,8 @@ pub fn frame_event_bytes(st: &StructL, e: &AEvent, o: &GenOpts) -> Vec<u8> {
 fn sjis_field(w: usize, r: &mut Rng) -> Vec<u8> {
 	// valid Shift-JIS up to the first NUL, garbage after it
 	let mut out = vec![];
-	let n = r.below(w as u64) as usize; // 0..w-1 content bytes
+	// 0..w-1 content bytes followed by a NUL, or (one time in four) content that fills the whole field
+	let n = if r.chance(1, 4) { w } else { r.below(w as u64) as usize };
 	while out.len() < n {
 		let left = n - out.len();
 		match r.below(4) {
@@ -216,7 +217,7 @@ fn sjis_field(w: usize, r: &mut Rng) -> Vec<u8> {
 
 fn utf8z_field(w: usize, r: &mut Rng) -> Vec<u8> {
 	let mut out = vec![];
-	let n = r.below(w as u64) as usize;
+	let n = if r.chance(1, 6) { w } else { r.below(w as u64) as usize };
 	while out.len() < n {
 		out.push(0x21 + r.below(0x5E) as u8);
 	}
